@@ -35,9 +35,15 @@ C = dict(
              cap={"quick": 100, "thorough": 3000}, params=P(1, [])),
     ],
     directed="plans/C03.jsonl",
+    # the directed plans e2e-* run the whole server (driver ckpt: real MetaCDC, channel manager, writer, batcher) through
+    # restart and pause / resume; their traces are judged by Ckpt_Trace (PROP=C03: the position a stream is re-registered
+    # with lies strictly above the end time with which the checkpointed pack was written downstream)
+    more_drivers=["ckpt"],
+    trace_of=lambda p: (("Ckpt_Trace", "Ckpt_Trace.cfg", {"PROP": "C03"}) if p.get("driver") == "ckpt"
+                        else ("Pipe_Trace", "Pipe_Trace.cfg", {"PROP": "C03"})),
     trace=("Pipe_Trace", "Pipe_Trace.cfg"),
     validate_env={"PROP": "C03"},
-    death="violation", driver_parallel=6,
+    death="violation", driver_parallel={"pipeline": 6, "ckpt": 1},
     nontrivial=lambda t: sum(len(e.get("out", [])) for e in t["events"]) >= 2,
     rule="plans = complete gate-level schedules of PipeClock.tla (feed/step sequences; exhaustive for the two small scripts, "
          "TLC -simulate for the larger ones) plus directed plans; non-trivial = at least two packs arrived on a downstream channel; "
